@@ -167,7 +167,9 @@ class Comparison:
         vnext = {}
         for clk, blk in mod["sync"]:
             p = {}
-            sem.run(blk, p, env)
+            sem.local_blocking = True
+            sem.run(blk, p, dict(env))      # private copy: blocking assignments to variables are local to the block
+            sem.local_blocking = False
             for k_, v_ in p.items():
                 if k_ in vnext:
                     self.bad_struct.append("%r assigned in several always blocks" % (k_,))
